@@ -1,4 +1,5 @@
 import MesonModel.Fmt.Tree
+import MesonModel.Fmt.Layout
 import MesonModel.Generated.FmtTables
 import Driver.Proto
 /- driver commands of area `fmt` (C16): translation-validation checker and the modelled rewriting decisions -/
@@ -52,8 +53,75 @@ def flagBool (s : String) : Bool := s.trimAscii.toString == "1"
 def showStrNode (n : StrNode) : String :=
   s!"{boolStr n.multi};{boolStr n.fstr};{encodeStr (printStr n)}"
 
+/-! abstract argument lists (`MesonModel.Fmt.Layout`): prefix notation, tokens separated by blanks:
+`L<key>`, `M<key>:<plain>`, `K<key>` + node, `C<cont>:<n>:<tr><ci><co>` + n nodes -/
+namespace Lay
+open MesonModel.Fmt.Layout
+
+def contOf : Nat → Cont
+  | 0 => .func | 1 => .files | 2 => .method | 3 => .array | _ => .dict
+def contIdx : Cont → Nat
+  | .func => 0 | .files => 1 | .method => 2 | .array => 3 | .dict => 4
+
+def bit (s : String) (i : Nat) : Bool := (s.toList.getD i '0') == '1'
+
+mutual
+partial def parseNode : List String → Option (Node × List String)
+  | [] => none
+  | t :: rest =>
+    let body := (t.drop 1).toString
+    match t.toList.head? with
+    | some 'L' => body.toInt?.map (fun k => (.leaf k, rest))
+    | some 'M' =>
+      match body.splitOn ":" with
+      | [k, p] => k.toInt?.map (fun k => (.mstr k (p == "1"), rest))
+      | _ => none
+    | some 'K' =>
+      match body.toInt?, parseNode rest with
+      | some k, some (v, rest') => some (.kw k v, rest')
+      | _, _ => none
+    | some 'C' =>
+      match body.splitOn ":" with
+      | [c, n, fl] =>
+        match c.toNat?, n.toNat? with
+        | some c, some n =>
+          match parseNodes n rest with
+          | some (items, rest') => some (.coll (contOf c) items (bit fl 0) (bit fl 1) (bit fl 2), rest')
+          | none => none
+        | _, _ => none
+      | _ => none
+    | _ => none
+partial def parseNodes : Nat → List String → Option (List Node × List String)
+  | 0, rest => some ([], rest)
+  | n + 1, rest =>
+    match parseNode rest with
+    | some (x, rest') =>
+      match parseNodes n rest' with
+      | some (xs, rest'') => some (x :: xs, rest'')
+      | none => none
+    | none => none
+end
+
+/-- printed with the layout a second run reads: for every non-empty list `1`/`0` (one item per line or not) -/
+partial def showNode (cfg : Cfg) : Node → String
+  | .leaf k => s!"L{k}"
+  | .mstr k p => s!"M{k}:{boolStr p}"
+  | .kw k v => s!"K{k} " ++ showNode cfg v
+  | .coll c items tr ci co =>
+    let ml := if items.isEmpty then "-" else boolStr (multiline cfg (.coll c items tr ci co))
+    " ".intercalate (s!"C{contIdx c}:{items.length}:{boolStr tr}{boolStr ci}{boolStr co}:{ml}" :: items.map (showNode cfg))
+
+def cfgOf (s : String) : Cfg := ⟨bit s 0, bit s 1, bit s 2, bit s 3⟩
+
+def run (cfg node : String) : String :=
+  match parseNode ((node.splitOn " ").filter (· ≠ "")) with
+  | some (n, []) => let c := cfgOf cfg; showNode c (fmt c n)
+  | _ => "bad-node"
+end Lay
+
 def handle (cmd : String) (fs : List String) : String :=
   match cmd, fs with
+  | "layout", [cfg, node] => Lay.run cfg node
   | "check", [so, a, b] =>
     match readTree a, readTree b with
     | some ta, some tb => s!"S{boolStr (sameProgram (flagBool so) ta tb)}C{boolStr (sameComments ta tb)}"
